@@ -258,6 +258,9 @@ def run(repo, rep, tier):
     r2 = rep.rule("R15.2", "every non-raising path through a builder loop consumes the element", floor=3)
     r3 = rep.rule("R15.3", "closed key-set gates whose failure edge only raises; no fall-through return", floor=24 + 19)
     r5 = rep.rule("R15.5", "JSON values are used only under a validation whose type agrees with the use", floor=60)
+    # a child fragment must be parsed by the factory named by ITS OWN type tag: otherwise a document whose tag and payload disagree is accepted
+    rep.borrow(repo, "C04", {"R4.3": ("R15.7", "every child fragment is parsed by the factory looked up under its own type tag", 25)},
+               keep=lambda f: "factory looked up" in f.message)
     r6 = rep.rule("R15.6", "ed() re-validates entries/ranges; header and version gate raise", floor=19 + 4)
     for c, f in rds:
         rep.analysed_functions.add(f.construct)
